@@ -33,9 +33,17 @@ def sub(name):
 
 
 _ctr = [0]
+_free = {}      # suffix -> names handed out by fresh() and given back by rm()
 
 
 def fresh(suffix=".cool"):
+    """A scratch file name. Names are deliberately RE-USED: a name given back through rm() is handed out again, so that consecutive
+    cases of a worker write different contents to the same path - state keyed by file name that leaks between calls of the
+    implementation (a stale module-level cache, a leftover of the previous collection) then shows up as a mismatch instead of being
+    hidden by ever-fresh names."""
+    pool = _free.get((os.getpid(), suffix))
+    if pool:
+        return pool.pop()
     _ctr[0] += 1
     return os.path.join(root(), f"f{os.getpid()}_{_ctr[0]}{suffix}")
 
@@ -49,3 +57,9 @@ def rm(*paths):
                 os.remove(p)
         except OSError:
             pass
+        base = os.path.basename(p)
+        if base.startswith(f"f{os.getpid()}_") and os.path.dirname(p) == root():
+            suffix = base[base.index("."):] if "." in base else ""
+            pool = _free.setdefault((os.getpid(), suffix), [])
+            if p not in pool:
+                pool.append(p)
